@@ -1,6 +1,6 @@
 (** C08 -- Log results are partitioned into ordered streams and honour the limit.  Statements only
     (proofs: Proofs/GroupP.v, Proofs/EngineP.v). *)
-From LogQLV Require Import Base.Bytes Base.LMap Model.Tables Model.Stages Model.Engine Spec.LogSpec Proofs.EngineP Proofs.GroupP.
+From LogQLV Require Import Base.Bytes Base.LMap Model.Tables Model.Stages Model.Engine Spec.LogSpec Proofs.EngineP Proofs.GroupP Proofs.KeyRenderP.
 From Coq Require Import Permutation Sorted.
 
 (** no two streams share a label set *)
@@ -44,6 +44,18 @@ Theorem result_time_ordered : forall o q recs es,
   spec_select o q recs = Some es -> StronglySorted rec_le recs -> StronglySorted ent_le es.
 Proof. exact result_time_ordered_lemma. Qed.
 Print Assumptions result_time_ordered.
+
+(** groupEntries keys its map of streams by LabelSet.String() = {k1=<quoted v1>,...} over the sorted labels; the model groups by
+    the label set itself.  They agree because the rendering is injective on label sets whose names hold no '=' -- given that
+    the quoting function is a prefix code (strconv.Quote: a quoted string ends at its first unescaped quote), which is the
+    one property of strconv.Quote this theorem takes as a hypothesis (it is not modelled: its escaping depends on
+    unicode.IsPrint).  Label values that imitate the rendering of other labels are part of the correspondence run. *)
+Theorem grouping_key_injective :
+  forall (quote : bytes -> bytes),
+  (forall a b r r', quote a ++ r = quote b ++ r' -> a = b /\ r = r') ->
+  forall l1 l2, keys_ok l1 -> keys_ok l2 -> render quote l1 = render quote l2 -> l1 = l2.
+Proof. exact render_inj_lemma. Qed.
+Print Assumptions grouping_key_injective.
 
 Example c08_nonvacuous : exists es, eval_log ex_oracles no_caps ex_query 0 ex_records = Some es /\ length es = 2%nat /\
                                     eval_log ex_oracles all_caps ex_query 1 ex_records = Some (firstn 1 es) /\ length (group_entries es) = 2%nat.
